@@ -7,6 +7,11 @@ Check C07_doomed_never_paid : forall c s ev,
   reachable c s -> Doomed s ->
   (forall cid q, In (OCall cid q) (snd (step c s ev)) -> is_attempt_start q = false) /\
   (entry_ (pl (fst (step c s ev))) = None \/ Doomed (fst (step c s ev))).
+Check C07_same_resolution_at_arrival : forall c s h sel,
+  resps (snd (step_htlc c s h sel)) = [] \/
+  exists r, resps (snd (step_htlc c s h sel)) = map (fun x => OResp (hid x) r) (h :: held c s (EvHtlc h)) /\ entry_ (pl (fst (step_htlc c s h sel))) = None.
+Check (eq_refl : held = fun c s ev => match entry_ (pl s) with Some e => listeners e | None => [] end).
 Print Assumptions C07_same_resolution.
+Print Assumptions C07_same_resolution_at_arrival.
 Print Assumptions C07_rejection_dooms.
 Print Assumptions C07_doomed_never_paid.
